@@ -17,7 +17,8 @@ import simprocesd.model.simulation as simmod
 
 from vlib.runner import Violation
 from vlib.weights import Weights
-from engines.lf_model import Gen, WP, toggle_cycle, add_value_cb, recv_value_cb, gate_pred, num, leaves, holdings, INF
+from engines.lf_model import (Gen, WP, toggle_cycle, add_value_cb, recv_value_cb, gate_pred, quality_pred, add_quality_cb,
+                              Pallet, num, leaves, holdings, INF)
 
 ID_LABELS = ('received_part', 'produced_part', 'supplied_new_part', 'device_failure')
 
@@ -81,7 +82,8 @@ def build(system, spec):
         k = d['k']
         up = [D[u] for u in d.get('up', [])]
         if k == 'S':
-            o = Source(d['n'], Gen(d['n'] + 'p', d.get('val', 0), d.get('batch'), generated), d['c'], num(d['budget']))
+            o = Source(d['n'], Gen(d['n'] + 'p', d.get('val', 0), d.get('batch'), generated,
+                                   Pallet if d.get('pallet') else None), d['c'], num(d['budget']))
         elif k == 'P':
             o = WP(d['n'], up, d['c'], resources_for_processing=d.get('res'))
             o.model = holder
@@ -92,6 +94,9 @@ def build(system, spec):
             if d.get('valadd'):
                 o.valadd = d['valadd']
                 o.add_finish_processing_callback(add_value_cb)
+            if d.get('qadd'):
+                o.qadd = d['qadd']
+                o.add_finish_processing_callback(add_quality_cb)
             o.fail_p = [0, 0.2, 0.0005][nproc[0] % 3]
             o.add_finish_processing_callback(rand_quality)
             o.add_shutdown_callback(restore_later)
@@ -109,7 +114,10 @@ def build(system, spec):
         elif k == 'BA':
             o = PartBatcher(d['n'], up, output_batch_size=d['size'])
         elif k == 'G':
-            o = DecisionGate(d['n'], up, partial(gate_pred, m=d['mod'], neg=d['neg']))
+            if 'q' in d:
+                o = DecisionGate(d['n'], up, partial(quality_pred, q=d['q'], neg=d['neg']))
+            else:
+                o = DecisionGate(d['n'], up, partial(gate_pred, m=d['mod'], neg=d['neg']))
         elif k == 'GP':
             o = D[d['g']].get_new_group_path(d['n'], up)
         elif k == 'K':
@@ -127,6 +135,8 @@ def build(system, spec):
         D[g['n']] = Group(g['n'], [D[d['n']] for d in g['devs']], **kw)
     for d in spec['devs']:
         mk(d)
+    for (frm, to) in spec.get('loops', []):
+        D[to].set_upstream(D[to].upstream + [D[frm]])
     sinks = [o for o in D.values() if isinstance(o, Sink)]
     sensors.append(PeriodicSensor(1.25, [AttributeProbe('received_parts_count', sinks[0])], 'ps', data_capacity=6))
     for a in spec.get('actions', []):
@@ -135,6 +145,8 @@ def build(system, spec):
             continue
         x = D[a[3]] if kind != 'addres' else a[3]
         y = a[4] if len(a) > 4 else None
+        if kind == 'wo':
+            y = None
         env.schedule_event(t, -3, partial(do_action, kind, x, y, rm, maint, env), prio, f'action {kind}')
     system.verif = {'D': D, 'generated': generated, 'maint': maint, 'sensors': sensors}
     return system
